@@ -17,11 +17,17 @@ mc.WT = WT
 
 def main():
     props = [a for a in sys.argv[1:] if not a.startswith('--')]
+    in_dir = os.path.join(VERIF, 'selftest', 'mutation')
     out_dir = os.path.join(VERIF, 'selftest', 'mutation_matrix')
+    for i, a in enumerate(sys.argv):
+        if a == '--in':           # e.g. --in selftest/mutation_r2  (output goes to <in>_matrix)
+            in_dir = os.path.join(VERIF, sys.argv[i + 1])
+            out_dir = in_dir.rstrip('/') + '_matrix'
+            props = [x for x in props if x != sys.argv[i + 1]]
     os.makedirs(out_dir, exist_ok=True)
     mc.run('git -C /repo worktree remove --force %s; git -C /repo worktree add --detach %s HEAD && cp /repo/Cargo.lock %s/' % (WT, WT, WT))
     for prop in props:
-        res = json.load(open(os.path.join(VERIF, 'selftest', 'mutation', prop + '.json')))
+        res = json.load(open(os.path.join(in_dir, prop + '.json')))
         cluster = [prop] + [c for c in mc.CLUSTERS[mc.CLUSTER_OF[prop]] if c != prop]
         out = []
         for rec in res['survived']:
